@@ -283,6 +283,8 @@ def ob_group_average(D, k, p, gname, clauses=("defn", "invariant", "orbit")):
     def onehot(rowd, b, dims):
         fs = arr.factors(rowd)
         bs = list(b) if isinstance(rowd, arr.Prod) else [b]
+        if len(fs) != len(dims) or isinstance(b, arr.Flat):
+            raise OutOfReach("the row axis of the filter matrix is not the basis axis (M,)*D + (D,)*k")
 
         def elem(j):
             cond = z3.simplify(z3.And([zi(arr.to_flat(f, bi)) == zi(arr.to_flat(d, ji)) for f, bi, d, ji in zip(fs, bs, dims, j)]))
@@ -342,6 +344,10 @@ def ob_group_average(D, k, p, gname, clauses=("defn", "invariant", "orbit")):
             W, M, FM = setup()
             rowd = FM.dims[0]
             cold = FM.dims[1:]
+            fr = arr.factors(rowd)
+            if len(fr) != len(cold) or not all(arr.ext_eq(arr.extent(a), arr.extent(b)) for a, b in zip(fr, cold)):
+                # rows no longer range over the whole basis (e.g. the basis was sliced): this clause is stated for basis-indexed rows
+                raise OutOfReach("the row axis of the filter matrix is not the basis axis (M,)*D + (D,)*k")
             n = 0
             for b, hb in arr.fresh_cases(rowd, "b"):
                 for c, hc in arr.fresh_cases(rowd, "c"):
